@@ -12,7 +12,8 @@ Indexes = Union[np.ndarray, List[int], slice]
 
 __all__ = ['RootSequence']
 
-# List of prime numbers lower than 282.
+# List of prime numbers up to 1200 (the largest LTE sequence size: 100 PRBs x 12
+# subcarriers), so that every allowed size finds its largest prime.
 _SMALL_PRIME_LIST = np.array([
     2, 3, 5, 7, 11, 13, 17, 19, 23, 29, 31, 37, 41, 43, 47, 53, 59, 61, 67, 71,
     73, 79, 83, 89, 97, 101, 103, 107, 109, 113, 127, 131, 137, 139, 149, 151,
@@ -24,7 +25,10 @@ _SMALL_PRIME_LIST = np.array([
     613, 617, 619, 631, 641, 643, 647, 653, 659, 661, 673, 677, 683, 691, 701,
     709, 719, 727, 733, 739, 743, 751, 757, 761, 769, 773, 787, 797, 809, 811,
     821, 823, 827, 829, 839, 853, 857, 859, 863, 877, 881, 883, 887, 907, 911,
-    919, 929, 937, 941, 947, 953, 967, 971, 977, 983, 991, 997, 1009
+    919, 929, 937, 941, 947, 953, 967, 971, 977, 983, 991, 997, 1009, 1013,
+    1019, 1021, 1031, 1033, 1039, 1049, 1051, 1061, 1063, 1069, 1087, 1091,
+    1093, 1097, 1103, 1109, 1117, 1123, 1129, 1151, 1153, 1163, 1171, 1181,
+    1187, 1193
 ])
 
 # Table with root sequence for sequence size equal to 12 (number of
